@@ -170,6 +170,25 @@ def run_case(args):
                                 model = smodel
                         rec['model'] = model
                         rep = replay_model(cid, case, model, tier, seed)
+                        # a model may sit on a point where the float code happens to agree (uninterpreted-function
+                        # values in a model are arbitrary): ask for counterexamples at other inputs before giving up
+                        tries = 0
+                        excl = ""
+                        cur = model
+                        while not rep.get('reproduced') and tries < 3 and not case.expect_sat:
+                            tries += 1
+                            excl += engine.exclude_text(cur, names)
+                            if not excl:
+                                break
+                            r3, m3, s3, _ = smt.solve(text + excl, min(case.timeout, 30), want_model=True)
+                            if r3 != 'sat':
+                                break
+                            cur = m3
+                            rep3 = replay_model(cid, case, m3, tier, seed)
+                            if rep3.get('reproduced'):
+                                rep, model = rep3, m3
+                                rec['model'] = m3
+                                rec['retries'] = tries
                         rec['replay'] = rep
                         if rep.get('reproduced'):
                             rec['verdict'] = 'violation'
